@@ -1,15 +1,19 @@
 (* Facts about Model/UdpTables.v:
      reply_goes_to_owner       client: a reply read on binding k goes to the local address that created k,
-                               labelled with the address of the packet (shadowsocks, trojan) or the target of k (vmess)
+                               labelled with the address of the packet (label source LabelFromServer) or the
+                               target in the key k (LabelBindingTarget, allowed only where the key contains it)
      datagram_preserved_*      content and target address of a forwarded datagram are those of the incoming one
      assoc_owned_by_one_user   server: a datagram of user u / session sid is handled by the association of (sid, u)
                                only; two users with the same session id have different associations; a legacy
                                datagram is keyed by its client address; replies are sealed for the user of the key
      one_in_one_out            an event produces at most one forwarded datagram
      flows_commute             events of different keys commute (table up to lookup, actions up to permutation)
-     flow_alone                the entry and the actions of key k are what the k-events alone produce *)
+     flow_alone                the entry and the actions of key k are what the k-events alone produce
+   The client lemmas are proved for ANY adapter shape (s_* : Model/UdpAdapters.v) and read at shape_of p, the shape
+   regenerated from the source; what the shapes must satisfy, and what that means for histories:
+   Proofs/UdpAdapterFacts.v, Proofs/UdpAdapterTableFacts.v. *)
 From Coq Require Import NArith List Bool Lia Permutation.
-From Octo Require Import Model.UdpTables.
+From Octo Require Import Model.UdpTables Proofs.UdpAdapterFacts.
 Import ListNotations.
 Open Scope N_scope.
 
@@ -179,33 +183,40 @@ Ltac solve_in :=
 Ltac in_hyp H :=
   simpl in H; repeat match type of H with _ \/ _ => destruct H as [H|H] | False => destruct H end; subst; try reflexivity.
 
+Lemma s_cstep_actions s t e : snd (s_cstep s t e) = snd (s_centry_step s (tlookup ckey_eqb (s_cev_key s e) t) e).
+Proof. apply (kstep_actions ckey_eqb (s_cev_key s) (s_centry_step s)). Qed.
 Lemma cstep_actions p t e : snd (cstep p t e) = snd (centry_step p (tlookup ckey_eqb (cev_key p e) t) e).
-Proof. apply (kstep_actions ckey_eqb (cev_key p) (centry_step p)). Qed.
+Proof. apply s_cstep_actions. Qed.
 Lemma sstep_actions rp t e : snd (sstep rp t e) = snd (sentry_step rp (tlookup akey_eqb (sev_key rp e) t) e).
 Proof. apply (kstep_actions akey_eqb (sev_key rp) (sentry_step rp)). Qed.
 
 (* ===================================================================================== *)
 (* client binding table                                                                   *)
 (* ===================================================================================== *)
-(* every binding sits under the key of the datagram that created it, and that datagram is in the history *)
-Definition cinv (p : proto) (seen : list cevent) (t : ctable) : Prop :=
-  forall k b, tlookup ckey_eqb k t = Some b ->
-    k = new_key p (b_sender b) (b_target b) /\
-    exists content o s, In (CLocal (b_sender b) (b_target b) content o s) seen.
+(* The lemmas are proved for ANY adapter shape s (Model/UdpAdapters.v), then read at shape_of p: the shape
+   tools/gen_from_source.py extracted for protocol p from the current source. *)
+Lemma key_by_sender ks sender target : fst (key_by ks sender target) = sender.
+Proof. destruct ks; reflexivity. Qed.
 
-Lemma cinv_more p seen e t : cinv p seen t -> cinv p (seen ++ [e]) t.
+(* every binding sits under the key of the datagram that created it, and that datagram is in the history *)
+Definition s_cinv (s : shape) (seen : list cevent) (t : ctable) : Prop :=
+  forall k b, tlookup ckey_eqb k t = Some b ->
+    k = key_by (s_key s) (b_sender b) (b_target b) /\
+    exists content o s0, In (CLocal (b_sender b) (b_target b) content o s0) seen.
+
+Lemma s_cinv_more s seen e t : s_cinv s seen t -> s_cinv s (seen ++ [e]) t.
 Proof.
-  intros H k b Hk. destruct (H k b Hk) as [H1 (c & o & s & H2)]. split; auto.
-  exists c, o, s. apply in_or_app; left; exact H2.
+  intros H k b Hk. destruct (H k b Hk) as [H1 (c & o & s0 & H2)]. split; auto.
+  exists c, o, s0. apply in_or_app; left; exact H2.
 Qed.
 
-Lemma cstep_inv p seen t e : cinv p seen t -> cinv p (seen ++ [e]) (fst (cstep p t e)).
+Lemma s_cstep_inv s seen t e : s_cinv s seen t -> s_cinv s (seen ++ [e]) (fst (s_cstep s t e)).
 Proof.
-  intros H k b. unfold cstep. rewrite (kstep_lookup ckey_eqb ckey_eqb_spec (cev_key p) (centry_step p)).
-  destruct (ckey_eqb (cev_key p e) k) eqn:E; [|apply (cinv_more p seen e t H)].
+  intros H k b. unfold s_cstep. rewrite (kstep_lookup ckey_eqb ckey_eqb_spec (s_cev_key s) (s_centry_step s)).
+  destruct (ckey_eqb (s_cev_key s e) k) eqn:E; [|apply (s_cinv_more s seen e t H)].
   apply ckey_eqb_spec in E. subst k.
-  pose proof (cinv_more p seen e t H (cev_key p e)) as Hold.
-  destruct (tlookup ckey_eqb (cev_key p e) t) as [b0|] eqn:L.
+  pose proof (s_cinv_more s seen e t H (s_cev_key s e)) as Hold.
+  destruct (tlookup ckey_eqb (s_cev_key s e) t) as [b0|] eqn:L.
   - specialize (Hold b0 eq_refl).
     destruct e as [sender target content out_ok send_ok|k content carried|k|k]; simpl in *.
     + destruct b0 as [bs bt [|]]; simpl.
@@ -220,69 +231,91 @@ Proof.
     exists content, out_ok, send_ok. apply in_or_app; right; left; reflexivity.
 Qed.
 
-Lemma crun_inv p evs : forall seen t, cinv p seen t -> cinv p (seen ++ evs) (fst (crun p t evs)).
+Lemma s_crun_inv s evs : forall seen t, s_cinv s seen t -> s_cinv s (seen ++ evs) (fst (s_crun s t evs)).
 Proof.
   induction evs as [|e r IH]; simpl; intros seen t H.
   - rewrite app_nil_r; exact H.
-  - pose proof (cstep_inv p seen t e H) as H1. unfold cstep in H1.
-    unfold crun; simpl. destruct (kstep ckey_eqb (cev_key p) (centry_step p) t e) as [t1 a]; simpl in *.
-    specialize (IH (seen ++ [e]) t1 H1). unfold crun in IH.
-    destruct (krun ckey_eqb (cev_key p) (centry_step p) t1 r) as [t2 b]; simpl in *.
+  - pose proof (s_cstep_inv s seen t e H) as H1. unfold s_cstep in H1.
+    unfold s_crun; simpl. destruct (kstep ckey_eqb (s_cev_key s) (s_centry_step s) t e) as [t1 a]; simpl in *.
+    specialize (IH (seen ++ [e]) t1 H1). unfold s_crun in IH.
+    destruct (krun ckey_eqb (s_cev_key s) (s_centry_step s) t1 r) as [t2 b]; simpl in *.
     rewrite <- app_assoc in IH; exact IH.
 Qed.
 
-Lemma cinv_nil p : cinv p [] [].
+Lemma s_cinv_nil s : s_cinv s [] [].
 Proof. intros k b H; discriminate. Qed.
 
-(* the label of a reply on binding k: the address inside the packet, or for vmess the target in the key *)
-Definition owner_label (p : proto) (k : ckey) (carried : address) : address :=
-  match p with
-  | Vmess => match snd k with Some target => target | None => carried end
-  | _ => carried
+(* the label of a reply on binding k: the address inside the packet, or -- where the adapter takes the binding's
+   target -- the target in the key *)
+Definition s_owner_label (s : shape) (k : ckey) (carried : address) : address :=
+  match s_label s with
+  | LabelFromServer => carried
+  | LabelBindingTarget => match snd k with Some target => target | None => carried end
   end.
+Definition owner_label (p : proto) : ckey -> address -> address := s_owner_label (shape_of p).
 
 (* P1: a reply read on binding k is sent to the local application address that created k (the
-   sender in the key, whose datagram is in the history), with the right label and its content *)
+   sender in the key, whose datagram is in the history), with the right label and its content.
+   For any shape whose label source fits its key (label_ok); the current shapes do (UdpAdapterFacts.label_ok_current). *)
+Theorem s_reply_goes_to_owner :
+  forall s, label_ok s = true ->
+  forall evs k content carried a,
+    In a (snd (s_cstep s (fst (s_crun s [] evs)) (CReply k content carried))) ->
+    a = ToLocalApp k (fst k) (s_owner_label s k carried) content /\
+    exists target content0 o s0, In (CLocal (fst k) target content0 o s0) evs /\ key_by (s_key s) (fst k) target = k.
+Proof.
+  intros s Hok evs k content carried a Ha.
+  pose proof (s_crun_inv s evs [] [] (s_cinv_nil s)) as Hi. simpl in Hi.
+  rewrite s_cstep_actions in Ha. simpl in Ha.
+  destruct (tlookup ckey_eqb k (fst (s_crun s [] evs))) as [b|] eqn:L; [|destruct Ha].
+  destruct (Hi k b L) as [Hk (c0 & o & s0 & Hin)].
+  destruct (b_alive b); [|destruct Ha]. destruct Ha as [<-|[]].
+  assert (Hs : b_sender b = fst k) by (rewrite Hk, key_by_sender; reflexivity).
+  split.
+  - rewrite Hs. f_equal. unfold label_by, s_owner_label, label_ok in *.
+    destruct (s_label s); auto. destruct (s_key s); [discriminate|]. rewrite Hk; reflexivity.
+  - exists (b_target b), c0, o, s0. rewrite <- Hs. split; auto.
+Qed.
+
 Theorem reply_goes_to_owner :
   forall p evs k content carried a,
     In a (snd (cstep p (fst (crun p [] evs)) (CReply k content carried))) ->
     a = ToLocalApp k (fst k) (owner_label p k carried) content /\
     exists target content0 o s, In (CLocal (fst k) target content0 o s) evs /\ new_key p (fst k) target = k.
-Proof.
-  intros p evs k content carried a Ha.
-  pose proof (crun_inv p evs [] [] (cinv_nil p)) as Hi. simpl in Hi.
-  rewrite cstep_actions in Ha. simpl in Ha.
-  destruct (tlookup ckey_eqb k (fst (crun p [] evs))) as [b|] eqn:L; [|destruct Ha].
-  destruct (Hi k b L) as [Hk (c0 & o & s & Hin)].
-  destruct (b_alive b); [|destruct Ha]. destruct Ha as [<-|[]].
-  assert (Hs : b_sender b = fst k) by (rewrite Hk; destruct p; reflexivity).
-  split.
-  - rewrite Hs. f_equal. unfold reply_label, owner_label. destruct p; auto. rewrite Hk; reflexivity.
-  - exists (b_target b), c0, o, s. rewrite <- Hs. split; auto.
-Qed.
+Proof. intros p. exact (s_reply_goes_to_owner (shape_of p) (label_ok_current p)). Qed.
 
 (* ... and it IS sent whenever the binding is there and its task runs (no reply is swallowed) *)
+Theorem s_reply_delivered_when_bound :
+  forall s t k b content carried,
+    tlookup ckey_eqb k t = Some b -> b_alive b = true ->
+    snd (s_cstep s t (CReply k content carried)) = [ToLocalApp k (b_sender b) (label_by (s_label s) b carried) content].
+Proof.
+  intros s t k b content carried L Al. rewrite s_cstep_actions. simpl. rewrite L, Al. reflexivity.
+Qed.
 Theorem reply_delivered_when_bound :
   forall p t k b content carried,
     tlookup ckey_eqb k t = Some b -> b_alive b = true ->
     snd (cstep p t (CReply k content carried)) = [ToLocalApp k (b_sender b) (reply_label p b carried) content].
-Proof.
-  intros p t k b content carried L Al. rewrite cstep_actions. simpl. rewrite L, Al. reflexivity.
-Qed.
+Proof. intros p. exact (s_reply_delivered_when_bound (shape_of p)). Qed.
 
 (* P2 (client half): what leaves towards the server is the datagram that came in: same content,
    same target, on the binding of new_key(sender, target) *)
+Theorem s_datagram_preserved_client :
+  forall s t sender target content o s0 a,
+    In a (snd (s_cstep s t (CLocal sender target content o s0))) ->
+    a = ToServer (key_by (s_key s) sender target) target content.
+Proof.
+  intros s t sender target content o s0 a. rewrite s_cstep_actions. simpl.
+  destruct (tlookup ckey_eqb (key_by (s_key s) sender target) t) as [[bs bt [|]]|]; simpl.
+  - destruct s0; solve_in.
+  - destruct (o && s0); solve_in.
+  - destruct (o && s0); solve_in.
+Qed.
 Theorem datagram_preserved_client :
   forall p t sender target content o s a,
     In a (snd (cstep p t (CLocal sender target content o s))) ->
     a = ToServer (new_key p sender target) target content.
-Proof.
-  intros p t sender target content o s a. rewrite cstep_actions. simpl.
-  destruct (tlookup ckey_eqb (new_key p sender target) t) as [[bs bt [|]]|]; simpl.
-  - destruct s; solve_in.
-  - destruct (o && s); solve_in.
-  - destruct (o && s); solve_in.
-Qed.
+Proof. intros p. exact (s_datagram_preserved_client (shape_of p)). Qed.
 
 (* ===================================================================================== *)
 (* server association table                                                               *)
@@ -409,18 +442,23 @@ Qed.
 (* ===================================================================================== *)
 (* one in, at most one out                                                                *)
 (* ===================================================================================== *)
+Lemma s_one_out s t e : (length (snd (s_cstep s t e)) <= 1)%nat.
+Proof.
+  rewrite s_cstep_actions.
+  destruct e as [sender target content o s0|k content carried|k|k]; simpl.
+  - destruct (tlookup ckey_eqb (key_by (s_key s) sender target) t) as [[bs bt [|]]|]; simpl;
+      [destruct s0|destruct (o && s0)|destruct (o && s0)]; simpl; lia.
+  - destruct (tlookup ckey_eqb k t) as [b|]; simpl; [destruct (b_alive b)|]; simpl; lia.
+  - destruct (tlookup ckey_eqb k t); simpl; lia.
+  - lia.
+Qed.
+
 Theorem one_in_one_out :
   (forall p t e, (length (snd (cstep p t e)) <= 1)%nat) /\
   (forall rp t e, (length (snd (sstep rp t e)) <= 1)%nat).
 Proof.
   split.
-  - intros p t e. rewrite cstep_actions.
-    destruct e as [sender target content o s|k content carried|k|k]; simpl.
-    + destruct (tlookup ckey_eqb (new_key p sender target) t) as [[bs bt [|]]|]; simpl;
-        [destruct s|destruct (o && s)|destruct (o && s)]; simpl; lia.
-    + destruct (tlookup ckey_eqb k t) as [b|]; simpl; [destruct (b_alive b)|]; simpl; lia.
-    + destruct (tlookup ckey_eqb k t); simpl; lia.
-    + lia.
+  - intros p. exact (s_one_out (shape_of p)).
   - intros rp t e. rewrite sstep_actions.
     destruct e as [g b r f s|k from content|k|k]; simpl.
     + destruct (tlookup akey_eqb (associate_key rp (g_sid g) (g_user g) (g_client g)) t) as [[si u c [|]]|]; simpl;
@@ -435,6 +473,21 @@ Qed.
 (* ===================================================================================== *)
 (* P5: two events of different keys commute: same table (as a map), same multiset of actions --
    in fact each event produces the same actions in either order *)
+Lemma s_flows_commute s t e1 e2 : s_cev_key s e1 <> s_cev_key s e2 ->
+  let '(t1, a1) := s_cstep s t e1 in let '(t12, a2) := s_cstep s t1 e2 in
+  let '(t2, b2) := s_cstep s t e2 in let '(t21, b1) := s_cstep s t2 e1 in
+  teq ckey_eqb t12 t21 /\ a1 = b1 /\ a2 = b2 /\ Permutation (a1 ++ a2) (b2 ++ b1).
+Proof.
+  intros H.
+  pose proof (kstep_commute ckey_eqb ckey_eqb_spec (s_cev_key s) (s_centry_step s) t e1 e2 H) as (T & A1 & A2).
+  unfold s_cstep. simpl in T, A1, A2.
+  destruct (kstep ckey_eqb (s_cev_key s) (s_centry_step s) t e1) as [t1 a1]; simpl in *.
+  destruct (kstep ckey_eqb (s_cev_key s) (s_centry_step s) t1 e2) as [t12 a2]; simpl in *.
+  destruct (kstep ckey_eqb (s_cev_key s) (s_centry_step s) t e2) as [t2 b2]; simpl in *.
+  destruct (kstep ckey_eqb (s_cev_key s) (s_centry_step s) t2 e1) as [t21 b1]; simpl in *.
+  subst. repeat split; auto. apply Permutation_app_comm.
+Qed.
+
 Theorem flows_commute :
   (forall p t e1 e2, cev_key p e1 <> cev_key p e2 ->
      let '(t1, a1) := cstep p t e1 in let '(t12, a2) := cstep p t1 e2 in
@@ -446,14 +499,7 @@ Theorem flows_commute :
      teq akey_eqb t12 t21 /\ a1 = b1 /\ a2 = b2 /\ Permutation (a1 ++ a2) (b2 ++ b1)).
 Proof.
   split.
-  - intros p t e1 e2 H.
-    pose proof (kstep_commute ckey_eqb ckey_eqb_spec (cev_key p) (centry_step p) t e1 e2 H) as (T & A1 & A2).
-    unfold cstep. simpl in T, A1, A2.
-    destruct (kstep ckey_eqb (cev_key p) (centry_step p) t e1) as [t1 a1]; simpl in *.
-    destruct (kstep ckey_eqb (cev_key p) (centry_step p) t1 e2) as [t12 a2]; simpl in *.
-    destruct (kstep ckey_eqb (cev_key p) (centry_step p) t e2) as [t2 b2]; simpl in *.
-    destruct (kstep ckey_eqb (cev_key p) (centry_step p) t2 e1) as [t21 b1]; simpl in *.
-    subst. repeat split; auto. apply Permutation_app_comm.
+  - intros p. exact (s_flows_commute (shape_of p)).
   - intros rp t e1 e2 H.
     pose proof (kstep_commute akey_eqb akey_eqb_spec (sev_key rp) (sentry_step rp) t e1 e2 H) as (T & A1 & A2).
     unfold sstep. simpl in T, A1, A2.
@@ -467,6 +513,12 @@ Qed.
 (* P5, whole histories: the entry of key k and the actions of key k after ANY interleaved history
    are those of the history restricted to the events of k -- each flow's result is what it would
    have been alone *)
+Lemma s_flow_alone s k evs t :
+  let only := filter (fun e => ckey_eqb (s_cev_key s e) k) evs in
+  tlookup ckey_eqb k (fst (s_crun s t evs)) = tlookup ckey_eqb k (fst (s_crun s t only)) /\
+  filter (fun x => ckey_eqb (fst x) k) (snd (s_crun s t evs)) = snd (s_crun s t only).
+Proof. apply (krun_flow_alone ckey_eqb ckey_eqb_spec (s_cev_key s) (s_centry_step s) k evs t t eq_refl). Qed.
+
 Theorem flow_alone :
   (forall p k evs t,
      let only := filter (fun e => ckey_eqb (cev_key p e) k) evs in
@@ -478,7 +530,7 @@ Theorem flow_alone :
      filter (fun x => akey_eqb (fst x) k) (snd (srun rp t evs)) = snd (srun rp t only)).
 Proof.
   split.
-  - intros p k evs t. apply (krun_flow_alone ckey_eqb ckey_eqb_spec (cev_key p) (centry_step p) k evs t t eq_refl).
+  - intros p. exact (s_flow_alone (shape_of p)).
   - intros rp k evs t. apply (krun_flow_alone akey_eqb akey_eqb_spec (sev_key rp) (sentry_step rp) k evs t t eq_refl).
 Qed.
 
